@@ -55,6 +55,9 @@ type seqCase struct {
 	HoldsOpen bool `json:"peer_holds_connection,omitempty"`
 	// SamePort (socket layer, with FixedPort): the bind port is the port NUMBER of the controller / broadcast address
 	SamePort bool `json:"bind_port_equals_destination_port,omitempty"`
+	// BcastSame (directed paths): the client's broadcast address is the controller's own address and port (a point-to-point link,
+	// a bench with one responder): the controller has a configured address - the directed path and its rules apply
+	BcastSame bool `json:"broadcast_address_equals_controller_address,omitempty"`
 }
 
 var classNames = []string{"valid", "short", "long", "other-serial", "serial-0", "wrong-code", "wrong-id", "id-0x19", "malformed", "malformed-strict", "two-faults", "foreign"}
@@ -180,6 +183,10 @@ func cfgFor(c seqCase, ep [4]byte, port uint16, timeoutMs int) hook.ClientCfg {
 		cfg.Devices = []hook.DeviceCfg{{Serial: c.Call.Serial, HasAddr: true, IP: ep, Port: port, Protocol: proto}}
 	case 2:
 		cfg.Devices = []hook.DeviceCfg{{Serial: c.Call.Serial, HasAddr: true, IP: ep, Port: port, Protocol: "tcp"}}
+	}
+	if c.BcastSame && c.Path != 0 {
+		cfg.HasBroadcast, cfg.BroadcastIP, cfg.BroadcastPort = true, ep, port
+		ev.Class(c.Layer+"/broadcast-address-equals-controller-address", 1)
 	}
 	return cfg
 }
@@ -604,6 +611,7 @@ func genCall(t *rapid.T, withSetAddress bool) spec.Call {
 func genSeq(layer string, maxLen int) func(t *rapid.T) seqCase {
 	return func(t *rapid.T) seqCase {
 		c := seqCase{Layer: layer, Path: rapid.IntRange(0, 2).Draw(t, "path"), Call: genCall(t, true)}
+		c.BcastSame = c.Path != 0 && rapid.IntRange(0, 3).Draw(t, "bcast.same") == 0
 		n := rapid.IntRange(0, maxLen).Draw(t, "n")
 		if c.Call.Op == "SetAddress" {
 			// controllers do not answer; whatever arrives must stay unread
